@@ -67,7 +67,7 @@ func (e *env) universe(l1Only bool) []treq {
 		}
 	}
 	addrs := []string{"a", "b", "c", "d", "e", "f"} // 0xf is never deployed
-	slots := []string{"5", "6", "7", "8"}          // 0x8 is never written
+	slots := []string{"5", "6", "7", "8"}           // 0x8 is never written
 	classes := []string{"384", "385", "386", "387", "388"}
 	for _, id := range e.idents() {
 		id := id
